@@ -273,13 +273,17 @@ def judge(family, case, rec):
                 CT = cf[np.ix_(T, T)]
                 dT = np.sqrt(np.abs(np.diag(CT)))
                 kT = float(np.linalg.cond(CT / np.outer(dT, dT))) if (dT > 0).all() else float("inf")
-                if 1e4 * EPS * kT <= 1e-3:
+                # the same two regimes as for the judged value itself (sound: normwise bound; badly scaled: gross errors only) - a
+                # stricter tolerance here would reject implementations that are merely normwise accurate
+                k2T = float(np.linalg.cond(CT))
+                relT = 1e3 * EPS * k2T if (np.isfinite(k2T) and 1e3 * EPS * k2T <= 1e-4) else (1e-3 if (np.isfinite(kT) and kT <= 1e6) else None)
+                if relT is not None:
                     try:
                         m4 = float(dist.mse(y, T))
                         rec.count("meta:monotone")
                         cysT = np.abs(cf[y, T])
                         CinvT = np.abs(np.linalg.inv(cf[np.ix_(T, T)]))
-                        tolT = 1e4 * EPS * kT * (abs(cf[y, y]) + float(cysT @ CinvT @ cysT))
+                        tolT = 10 * relT * (abs(cf[y, y]) + float(cysT @ CinvT @ cysT))
                         if m4 > mse + tol + tolT:
                             rec.violation("C06:mse-increases-with-more-regressors", family, sub,
                                           "mse(y,%s) = %.17g > mse(y,%s) = %.17g" % (T, m4, S, mse), **ctx)
